@@ -3,24 +3,43 @@
 #![allow(dead_code)]
 mod rng;
 mod sexp;
+#[cfg(feature = "c02")]
 mod c02;
+#[cfg(feature = "c01")]
 mod c01;
+#[cfg(feature = "c03")]
 mod c03;
+#[cfg(feature = "c05")]
 mod c05;
+#[cfg(feature = "c06")]
 mod c06;
+#[cfg(feature = "c07")]
 mod c07;
+#[cfg(feature = "c08")]
 mod c08;
+#[cfg(feature = "c10")]
 mod c10;
+#[cfg(feature = "c11")]
 mod c11;
+#[cfg(feature = "c09")]
 mod c09;
+#[cfg(feature = "c12")]
 mod c12;
+#[cfg(feature = "c13")]
 mod c13;
+#[cfg(feature = "c14")]
 mod c14;
+#[cfg(feature = "c15")]
 mod c15;
+#[cfg(feature = "c16")]
 mod c16;
+#[cfg(feature = "c17")]
 mod c17;
+#[cfg(feature = "c18")]
 mod c18;
+#[cfg(feature = "c19")]
 mod c19;
+#[cfg(feature = "c20")]
 mod c20; pub(crate) use fontc::Error; // (c20 compiles /repo/fontc/src/args.rs, which names crate::Error)
 mod e2e;
 
@@ -74,35 +93,116 @@ fn main() {
     }
     let args = parse_args(&argv[1..]);
     match argv[0].as_str() {
+        #[cfg(feature = "c02")]
         "c02" => c02::run(&args),
+        #[cfg(feature = "c05")]
         "c05sfnt" => c05::run_sfnt(&args),
+        #[cfg(feature = "c05")]
         "c05font" => c05::run_font(&args),
-        "c06" => c06::run(&args), "c06glyphs" => c06::run_glyphs(&args), "c06e2e" => c06::run_e2e(&args), "c06probe" => c06::run_probe(&args),
+        #[cfg(feature = "c06")]
+        "c06" => c06::run(&args),
+        #[cfg(feature = "c06")]
+        "c06glyphs" => c06::run_glyphs(&args),
+        #[cfg(feature = "c06")]
+        "c06e2e" => c06::run_e2e(&args),
+        #[cfg(feature = "c06")]
+        "c06probe" => c06::run_probe(&args),
+        #[cfg(feature = "c07")]
         "c07" => c07::run(&args),
+        #[cfg(feature = "c01")]
         "c01" => c01::run(&args),
+        #[cfg(feature = "c01")]
         "c01child" => c01::child(&argv[1..]),
+        #[cfg(feature = "c08")]
         "c08" => c08::run(&args),
+        #[cfg(feature = "c08")]
         "c08mal" => c08::run_mal(&args),
+        #[cfg(feature = "c08")]
         "c08e2e" => c08::run_e2e(&args),
+        #[cfg(feature = "c08")]
         "c08one" => c08::run_one(&args),
+        #[cfg(feature = "c08")]
         "c08e2eone" => c08::run_e2e_one(&args),
-        "c10" => c10::run(&args), "c10e2e" => c10::run_e2e(&args), "c10big" => c10::run_big(&args),
-        "c09" => c09::run(&args), "c09e2e" => c09::run_e2e(&args), "c09wit" => c09::run_witness(&args),
-        "c11" => c11::run("c11", &args), "c11x" => c11::run("c11x", &args), "c11adv" => c11::run("c11adv", &args), "c11fea" => c11::run_file(&args),
+        #[cfg(feature = "c10")]
+        "c10" => c10::run(&args),
+        #[cfg(feature = "c10")]
+        "c10e2e" => c10::run_e2e(&args),
+        #[cfg(feature = "c10")]
+        "c10big" => c10::run_big(&args),
+        #[cfg(feature = "c09")]
+        "c09" => c09::run(&args),
+        #[cfg(feature = "c09")]
+        "c09e2e" => c09::run_e2e(&args),
+        #[cfg(feature = "c09")]
+        "c09wit" => c09::run_witness(&args),
+        #[cfg(feature = "c11")]
+        "c11" => c11::run("c11", &args),
+        #[cfg(feature = "c11")]
+        "c11x" => c11::run("c11x", &args),
+        #[cfg(feature = "c11")]
+        "c11adv" => c11::run("c11adv", &args),
+        #[cfg(feature = "c11")]
+        "c11fea" => c11::run_file(&args),
+        #[cfg(feature = "c16")]
         "c16" => c16::run(&args),
+        #[cfg(feature = "c16")]
         "c16e2e" => c16::run_e2e(&args),
+        #[cfg(feature = "c17")]
         "c17" => c17::run(&args),
+        #[cfg(feature = "c17")]
         "c17x" => c17::run_directed(&args),
-        "c18" => c18::run(&args), "c18child" => c18::run_child(&args), "c18e2e" => c18::run_e2e(&args),
-        "c12e2e" => c12::run(&args), "c12dir" => c12::run_directed(&args), "c12" => c12::run_pure(&args),
+        #[cfg(feature = "c18")]
+        "c18" => c18::run(&args),
+        #[cfg(feature = "c18")]
+        "c18child" => c18::run_child(&args),
+        #[cfg(feature = "c18")]
+        "c18e2e" => c18::run_e2e(&args),
+        #[cfg(feature = "c12")]
+        "c12e2e" => c12::run(&args),
+        #[cfg(feature = "c12")]
+        "c12dir" => c12::run_directed(&args),
+        #[cfg(feature = "c12")]
+        "c12" => c12::run_pure(&args),
+        #[cfg(feature = "c13")]
         "c13lex" => c13::run_lex(&args),
+        #[cfg(feature = "c13")]
         "c13inc" => c13::run_inc(&args),
+        #[cfg(feature = "c03")]
         "c03e2e" => c03::run("c03e2e", &args),
+        #[cfg(feature = "c03")]
         "c04e2e" => c03::run("c04e2e", &args),
-        "c19e2e" => c19::run("c19e2e", &args), "c19e2e_rel" => c19::run("c19e2e_rel", &args), "c19big" => c19::run("c19big", &args), "c19big_rel" => c19::run("c19big_rel", &args), "c19obs" => c19::run_obs("c19obs", &args), "c19bigobs" => c19::run_obs("c19bigobs", &args),
+        #[cfg(feature = "c19")]
+        "c19e2e" => c19::run("c19e2e", &args),
+        #[cfg(feature = "c19")]
+        "c19e2e_rel" => c19::run("c19e2e_rel", &args),
+        #[cfg(feature = "c19")]
+        "c19big" => c19::run("c19big", &args),
+        #[cfg(feature = "c19")]
+        "c19big_rel" => c19::run("c19big_rel", &args),
+        #[cfg(feature = "c19")]
+        "c19obs" => c19::run_obs("c19obs", &args),
+        #[cfg(feature = "c19")]
+        "c19bigobs" => c19::run_obs("c19bigobs", &args),
+        #[cfg(feature = "c14")]
         "c14names" | "c14paths" | "c14emit" => c14::run(argv[0].as_str(), &args),
-        "c20plist" => c20::run_plist(&args), "c20args" => c20::run_args(&args), "c20e2e" => c20::run_e2e(&args), "c20child" => c20::run_child(&argv[1..]), "c20unicode" => c20::run_unicode(&args),
-        "c15graph" => c15::run_graph(&args), "c15mut" => c15::run_mut(&args), "c15child" => c15::run_child(&args), "c15corpus" => c15::run_corpus(&args),
+        #[cfg(feature = "c20")]
+        "c20plist" => c20::run_plist(&args),
+        #[cfg(feature = "c20")]
+        "c20args" => c20::run_args(&args),
+        #[cfg(feature = "c20")]
+        "c20e2e" => c20::run_e2e(&args),
+        #[cfg(feature = "c20")]
+        "c20child" => c20::run_child(&argv[1..]),
+        #[cfg(feature = "c20")]
+        "c20unicode" => c20::run_unicode(&args),
+        #[cfg(feature = "c15")]
+        "c15graph" => c15::run_graph(&args),
+        #[cfg(feature = "c15")]
+        "c15mut" => c15::run_mut(&args),
+        #[cfg(feature = "c15")]
+        "c15child" => c15::run_child(&args),
+        #[cfg(feature = "c15")]
+        "c15corpus" => c15::run_corpus(&args),
         other => {
             eprintln!("unknown stream {other}");
             std::process::exit(2);
